@@ -52,6 +52,7 @@ package shard
 //@   defines fullReadAttempted(a1) && (err == nil ==> readInto(a1) == len(a1))
 //@ callrule restore_read_facts in (*Shard).Restore
 //@   property C46
+//@   optional
 //@   callee (io.Reader).Read
 //@   defines err == nil ==> 0 <= readInto(a0) && readInto(a0) <= len(a0)
 
